@@ -36,6 +36,13 @@ func (propC05) Gen(seed uint64, tier string, idx int) *Plan {
 	p.Stack.Engine = eng
 	p.Stack.ConnTimeout = 2 * time.Second
 	p.Stack.ReadTimeout = 3 * time.Second
+	if r.Chance(400) {
+		// a failure has to look like a failure under every model-routing configuration
+		p.Stack.Strategy = pickS(r, []string{"strict", "optimistic", "discovery"})
+		p.Stack.Fallback = pickS(r, []string{"compatible_only", "none", "all"})
+		p.Stack.RefreshOnMiss = r.Chance(500)
+		p.Stack.Unified = r.Chance(700)
+	}
 	epType := pickS(r, []string{"vllm", "sglang", "ollama", "lemonade"})
 	if r.Chance(150) {
 		p.Stack.Passthrough = false
@@ -44,7 +51,7 @@ func (propC05) Gen(seed uint64, tier string, idx int) *Plan {
 	if mode == "no-endpoints" {
 		nEp = 0
 	}
-	p.Sub = fmt.Sprintf("%s/%s/%s/stream=%v/%s/ep%d", mode, eng, route, stream, epType, nEp)
+	p.Sub = fmt.Sprintf("%s/%s/%s/stream=%v/%s/ep%d/%s-%s", mode, eng, route, stream, epType, nEp, p.Stack.Strategy, p.Stack.Fallback)
 	errBody := `{"error":{"message":"scripted backend failure XYZZY","type":"invalid_request_error","code":"bad"}}`
 	// error answers come in all sizes: a gateway's HTML error page or a stack trace can be far
 	// larger than any internal buffer Olla uses while relaying it
@@ -93,6 +100,13 @@ func (propC05) Gen(seed uint64, tier string, idx int) *Plan {
 	}
 	prefix := epType
 	nOps := 1 + r.Pick(3)
+	longRun := mode == "all-fin" && r.Chance(500)
+	if longRun {
+		// enough failed requests in a row to exhaust whatever per-endpoint failure budget the engine keeps
+		// (endpoints that close without answering stay in rotation): the later requests find every
+		// candidate skipped and must still be told so
+		nOps = 6*nEp + r.Pick(6)
+	}
 	for i := 1; i <= nOps; i++ {
 		op := ClientOp{ID: i, At: r.Dur(0, 5*time.Millisecond), Method: "POST", Deadline: 25 * time.Second}
 		switch route {
@@ -105,6 +119,9 @@ func (propC05) Gen(seed uint64, tier string, idx int) *Plan {
 		default:
 			op.Path = "/olla/anthropic/v1/messages"
 			op.Body = BodySpec{Kind: "anthropic", N: 50, Model: model, Stream: stream}
+		}
+		if longRun {
+			op.At = time.Duration(i-1) * 300 * time.Millisecond
 		}
 		if mode == "all-blackhole" || mode == "all-refuse" || mode == "all-rst" {
 			// sequential: the first failure takes endpoints out of rotation, later ops see none left
